@@ -1,11 +1,17 @@
 package checks
 
 import (
+	"bytes"
 	"context"
 	"fmt"
+	"net/http"
+	"net/http/httptest"
 	"strings"
 	"sync"
 	"time"
+
+	"golang.org/x/time/rate"
+	"github.com/transparency-dev/witness/internal/feeder/bastion"
 
 	"github.com/transparency-dev/witness/internal/persistence"
 	"github.com/transparency-dev/witness/omniwitness"
@@ -276,7 +282,7 @@ func c20(tier string) int {
 	// a re-submission is cosigned to the very bytes already stored), sizes 0..4,
 	// shapes that carry the witness's own earlier signature too.
 	uni.SetCosigClock(func() int64 { return 1700000000 })
-	pf := searchPlan{n: 4, divs: []int{0}, stores: []string{"mem", "sql"}, workers: 1, twoLogs: true,
+	pf := searchPlan{n: 4, divs: []int{0}, stores: []string{"mem", "sql"}, workers: 1, twoLogs: true, cold: true,
 		alpha: wh.AlphaOpts{MaxN: 4, Forged: true, Shapes: []string{"plain", "stale-own-valid"}}}
 	pf.preStep = pre
 	runPlan(run, pf, mon, nil)
@@ -439,7 +445,18 @@ func ctxLeg(run *ev.Run, prop string) {
 				go func() {
 					var b []byte
 					var err error
-					if prop == "C13" {
+					if prop == "C10" {
+						// Through the add-checkpoint endpoint: the request's context
+						// is the client's connection.
+						h := bastion.VerifNewHandler(omniwitness.VerifWitnessAdapter(e.W), c10Logs(la, lb), u.W1.CosigVerif, rate.Inf, 1, true)
+						req := httptest.NewRequest(http.MethodPost, "/add-checkpoint", bytes.NewReader(c10Body(uint64(k.old), u.Main.Proof(k.old, k.n), cp))).WithContext(ctx)
+						rec := httptest.NewRecorder()
+						h.ServeHTTP(rec, req)
+						b = rec.Body.Bytes()
+						if rec.Code != 200 {
+							err = fmt.Errorf("HTTP %d", rec.Code)
+						}
+					} else if prop == "C13" {
 						b, err = omniwitness.VerifWitnessAdapter(e.W).Update(ctx, la.ID(), uint64(k.old), append([]byte{}, cp...), u.Main.Proof(k.old, k.n))
 					} else {
 						b, err = e.W.Update(ctx, la.ID(), uint64(k.old), append([]byte{}, cp...), u.Main.Proof(k.old, k.n))
@@ -496,6 +513,19 @@ func ctxLeg(run *ev.Run, prop string) {
 						if !ok || text != meta.Text || after.ByID[la.ID()] != string(r.b) {
 							run.Report("accepted-not-stored class=context-ended at="+at, fmt.Sprintf("%s store: %s with the context cancelled at %s was answered as accepted but the store does not hold what was returned", store, k.name, at), rep)
 						}
+					}
+				case "C10":
+					// 200 only when the checkpoint was accepted (then it is what
+					// the witness holds, and the body is its cosignature); any
+					// other answer: nothing changed.
+					text, _, _ := uni.SplitNote([]byte(after.ByID[la.ID()]))
+					if r.err == nil {
+						lines := strings.Split(strings.TrimSuffix(string(r.b), "\n"), "\n")
+						if _, ok := countValid(u.W1.CosigVerif, meta.Text, lines); text != meta.Text || ok < 1 {
+							run.Report("200-without-acceptance class=context-ended at="+at, fmt.Sprintf("%s store: %s through the endpoint with the client's context cancelled at %s was answered 200, but the witness does not hold the submitted checkpoint / the body carries no valid cosignature of it", store, k.name, at), rep)
+						}
+					} else if !after.Equal(before) {
+						run.Report("state-changed class=context-ended status="+r.err.Error()+" at="+at, fmt.Sprintf("%s store: %s through the endpoint with the client's context cancelled at %s was answered %v, yet the witness's state changed", store, k.name, at, r.err), rep)
 					}
 				case "C20":
 					id := la.ID()
